@@ -19,6 +19,29 @@ package main
 // Scenario `snaprace` (only with -snaprace, meant for the -race build, see o_c19race.go): sessions A and
 // B select the same mailbox; B keeps deleting+expunging and logging out while A keeps issuing
 // commands: removeState(B) reads A's snapshot (other.HasMessage) from B's goroutine (finding #13b).
+// Session states (how each session got where it is when the teardown starts), beyond the basic ones:
+// every way a session can END, in every protocol state. `big` = a mailbox of c19BigCount messages of
+// c19BigSize bytes filled through the connector; the client of a `fetch-*` session has a 4 KiB receive
+// buffer and stops reading after 16 bytes, so the server's socket buffer and the command's response
+// channel (8 slots) fill while most FETCH responses are still to be produced:
+//
+//	idle-done / idle-garbage / idle-othercmd   IDLE left by DONE / by a malformed line (NO) / by another command (BAD); then NOOP
+//	idle-garbage-idle                           IDLE left by a malformed line, IDLE entered again and kept
+//	idle-fin / idle-rst                         IDLE left by the client closing / resetting the connection
+//	idle-done-rst / idle-enter-rst              reset right behind DONE / right behind the IDLE command (write failure around IDLE)
+//	midliteral-fin / midliteral-rst             connection closed / reset inside an APPEND literal
+//	fetch-drain                                 FETCH 1:* (BODY.PEEK[]) of `big` read to its tagged OK (every command completes)
+//	fetch-stall                                 the same FETCH, client not reading, still connected when the teardown starts
+//	fetch-stall-rst / fetch-stall-fin           ... then the connection is reset / closed with unread data
+//	fetch-logout                                FETCH + LOGOUT pipelined, everything read: must end with the tagged OK of LOGOUT and EOF
+//	fetch-logout-stall-rst                      FETCH + LOGOUT pipelined, client not reading, reset
+//
+// `ctxcancel` takes the same session states: the Serve context is cancelled in every one of them.
+// Scenario `updrace` (meant for the -race build): a goroutine feeds connector updates (MessageCreated, no
+// Flush) while sessions of that user log in, NOOP and log out / drop: the session bookkeeping (user.states)
+// is shared between the update goroutine and the session goroutines.
+// After every scenario: RemoveUser / Close returned within the watchdog, and the goroutines are back at the
+// baseline; what is left is reported as `count x first gluon frame`, baseline goroutines subtracted.
 // Scenario `errch`: three unauthenticated sessions, Serve context cancelled, nobody reads GetErrorCh:
 // Server.Close must not leave the serveErrCh consumer goroutine (214c4ac: CloseAndDiscardQueued; theorem
 // server_errch_close_classified; a goroutine left is reported as `c19teardown #13a-errch`).
@@ -29,10 +52,12 @@ import (
 	"encoding/json"
 	"flag"
 	"fmt"
+	"io"
 	"net"
 	"os"
 	"runtime"
 	"strings"
+	"syscall"
 	"time"
 
 	"github.com/ProtonMail/gluon"
@@ -41,13 +66,29 @@ import (
 	"github.com/sirupsen/logrus"
 )
 
+const (
+	c19BigCount = 128      // messages in the mailbox `big`
+	c19BigSize  = 64 << 10 // bytes per message: 8 MiB in all, more than a loopback socket takes (tcp_wmem max 4 MiB)
+)
+
 type tdClient struct {
 	c net.Conn
 	r *bufio.Reader
 }
 
-func tdDial(addr string) (*tdClient, error) {
-	c, err := net.DialTimeout("tcp", addr, 5*time.Second)
+func tdDial(addr string) (*tdClient, error) { return tdDialBuf(addr, 0) }
+
+// tdDialBuf: rcvbuf > 0 sets SO_RCVBUF before connecting (small window, no receive-buffer autotuning).
+func tdDialBuf(addr string, rcvbuf int) (*tdClient, error) {
+	d := net.Dialer{Timeout: 5 * time.Second}
+	if rcvbuf > 0 {
+		d.Control = func(_, _ string, rc syscall.RawConn) error {
+			return rc.Control(func(fd uintptr) {
+				_ = syscall.SetsockoptInt(int(fd), syscall.SOL_SOCKET, syscall.SO_RCVBUF, rcvbuf)
+			})
+		}
+	}
+	c, err := d.Dial("tcp", addr)
 	if err != nil {
 		return nil, err
 	}
@@ -68,6 +109,11 @@ func (cl *tdClient) cmd(tag, text string) (string, error) {
 	if _, err := fmt.Fprintf(cl.c, "%s %s\r\n", tag, text); err != nil {
 		return "", err
 	}
+	return cl.until(tag)
+}
+
+// until reads until the reply tagged `tag` (or a continuation request).
+func (cl *tdClient) until(tag string) (string, error) {
 	for {
 		l, err := cl.line()
 		if err != nil {
@@ -79,10 +125,39 @@ func (cl *tdClient) cmd(tag, text string) (string, error) {
 	}
 }
 
+// rst closes the connection abruptly: the peer's pending and next writes fail (ECONNRESET / EPIPE).
+func (cl *tdClient) rst() {
+	if t, ok := cl.c.(*net.TCPConn); ok {
+		_ = t.SetLinger(0)
+	}
+	_ = cl.c.Close()
+}
+
+// the basic states (as before) ...
 var tdStates = []string{"preauth", "auth", "selected", "idle", "midliteral", "dropped", "noop-loop"}
 
+// ... the ways out of IDLE / of a literal (cheap) ...
+var tdEndStates = []string{
+	"idle-done", "idle-garbage", "idle-othercmd", "idle-garbage-idle", "idle-fin", "idle-rst", "idle-done-rst", "idle-enter-rst",
+	"midliteral-fin", "midliteral-rst",
+}
+
+// ... and the ones around a multi-response command whose client does not read (need the mailbox `big`).
+var tdBigStates = []string{"fetch-drain", "fetch-stall", "fetch-stall-rst", "fetch-stall-fin", "fetch-logout", "fetch-logout-stall-rst"}
+
+func tdKnownState(st string) bool {
+	for _, xs := range [][]string{tdStates, tdEndStates, tdBigStates} {
+		for _, x := range xs {
+			if x == st {
+				return true
+			}
+		}
+	}
+	return false
+}
+
 type tdScenario struct {
-	kind     string // teardown | ctxcancel | errch
+	kind     string // teardown | ctxcancel | errch | snaprace | updrace
 	sessions []string
 	how      string // close | removeuser+close
 }
@@ -98,10 +173,12 @@ type tdOutcome struct {
 	baseline   int
 	leftover   string
 	setupErr   string
+	incomplete string // a command that did not complete although its client kept reading
 }
 
-func tdTopFrames() string {
-	buf := make([]byte, 1<<20)
+// tdFrameCounts: goroutines by their first gluon frame (else their top frame).
+func tdFrameCounts() map[string]int {
+	buf := make([]byte, 4<<20)
 	n := runtime.Stack(buf, true)
 	counts := map[string]int{}
 	for _, g := range strings.Split(string(buf[:n]), "\n\n") {
@@ -109,22 +186,41 @@ func tdTopFrames() string {
 		if len(lines) < 2 || strings.Contains(lines[0], "running") {
 			continue
 		}
-		// first gluon frame, else first frame
-		frame := strings.TrimSpace(lines[1])
-		for _, l := range lines[1:] {
-			if strings.Contains(l, "ProtonMail/gluon") && !strings.HasPrefix(l, "\t") {
-				frame = strings.TrimSpace(l)
+		// first gluon frame (a frame of the helper package `async` is followed by its gluon caller), else first frame
+		strip := func(l string) string {
+			l = strings.TrimSpace(l)
+			if i := strings.LastIndex(l, "("); i > 0 {
+				l = l[:i]
+			}
+			return strings.TrimPrefix(l, "github.com/ProtonMail/gluon/")
+		}
+		frame := strip(lines[1])
+		for k, l := range lines[1:] {
+			if strings.Contains(l, "ProtonMail/gluon") && !strings.HasPrefix(l, "\t") && !strings.HasPrefix(l, "created by") {
+				frame = strip(l)
+				if strings.HasPrefix(frame, "async.") {
+					for _, m := range lines[k+2:] {
+						if strings.Contains(m, "ProtonMail/gluon") && !strings.HasPrefix(m, "\t") && !strings.HasPrefix(m, "created by") && !strings.HasPrefix(strip(m), "async.") {
+							frame += " < " + strip(m)
+							break
+						}
+					}
+				}
 				break
 			}
 		}
-		if i := strings.LastIndex(frame, "("); i > 0 {
-			frame = frame[:i]
-		}
 		counts[frame]++
 	}
+	return counts
+}
+
+// tdTopFrames: what is there now beyond `base` (nil: everything), as `count x frame; ...`.
+func tdTopFrames(base map[string]int) string {
 	var xs []string
-	for k, v := range counts {
-		xs = append(xs, fmt.Sprintf("%dx %s", v, k))
+	for k, v := range tdFrameCounts() {
+		if v -= base[k]; v > 0 {
+			xs = append(xs, fmt.Sprintf("%dx %s", v, k))
+		}
 	}
 	sortStrings(xs)
 	return strings.Join(xs, "; ")
@@ -140,10 +236,190 @@ func sortStrings(xs []string) {
 	}
 }
 
+func tdMessage(size int) []byte {
+	var b strings.Builder
+	b.WriteString("From: a@example.com\r\nTo: b@example.com\r\nDate: Mon, 02 Jan 2006 15:04:05 +0000\r\nSubject: s\r\n\r\n")
+	for b.Len() < size {
+		b.WriteString("0123456789012345678901234567890123456789012345678901234567890123456789\r\n")
+	}
+	return []byte(b.String())
+}
+
+func tdMailbox(conn *connector.Dummy, id, name string) error {
+	return conn.MailboxCreated(imap.Mailbox{ID: imap.MailboxID(id), Name: []string{name}, Flags: imap.NewFlagSet(`\Seen`), PermanentFlags: imap.NewFlagSet(`\Seen`), Attributes: imap.NewFlagSet()})
+}
+
+// tdMakeBig fills the mailbox `big` through the connector.
+func tdMakeBig(conn *connector.Dummy) error {
+	if err := tdMailbox(conn, "c19big", "big"); err != nil {
+		return err
+	}
+	lit := tdMessage(c19BigSize)
+	for i := 0; i < c19BigCount; i++ {
+		if err := conn.MessageCreated(imap.Message{ID: imap.MessageID(fmt.Sprintf("c19big-%d", i)), Flags: imap.NewFlagSet(), Date: time.Unix(1136214245, 0).UTC()}, lit, []imap.MailboxID{"c19big"}); err != nil {
+			return err
+		}
+	}
+	conn.Flush()
+	return nil
+}
+
+type tdEnv struct {
+	addr       string
+	stopLoops  chan struct{}
+	loopsDone  chan struct{}
+	loops      int
+	clients    []*tdClient
+	incomplete []string
+}
+
+const tdFetchBig = "FETCH 1:* (BODY.PEEK[])"
+
+// stall: the client reads 16 bytes of the answer and then nothing for a while: the server ends up blocked in
+// write(2) with the producers of the command queued on its response channel.
+func (cl *tdClient) stall() {
+	_ = cl.c.SetReadDeadline(time.Now().Add(10 * time.Second))
+	_, _ = io.ReadFull(cl.r, make([]byte, 16))
+	time.Sleep(300 * time.Millisecond)
+}
+
+// enter brings session i into state st.
+func (e *tdEnv) enter(i int, st string) error {
+	big := strings.HasPrefix(st, "fetch-")
+	rcvbuf := 0
+	if big && st != "fetch-drain" && st != "fetch-logout" {
+		rcvbuf = 4096
+	}
+	cl, err := tdDialBuf(e.addr, rcvbuf)
+	if err != nil {
+		return fmt.Errorf("dial: %w", err)
+	}
+	e.clients = append(e.clients, cl)
+	if st == "preauth" {
+		return nil
+	}
+	if r, err := cl.cmd("a", "LOGIN user pass"); err != nil || !strings.HasPrefix(r, "a OK") {
+		return fmt.Errorf("login: %v %q", err, r)
+	}
+	if st == "auth" {
+		return nil
+	}
+	box := fmt.Sprintf("box%d", i)
+	if big {
+		box = "big"
+	} else {
+		_, _ = cl.cmd("b", "CREATE "+box)
+	}
+	if r, err := cl.cmd("c", "SELECT "+box); err != nil || !strings.HasPrefix(r, "c OK") {
+		return fmt.Errorf("select: %v %q", err, r)
+	}
+	send := func(text string) { _, _ = cl.c.Write([]byte(text)) }
+	// completes: the client keeps reading, so the command tagged `tag` must complete
+	completes := func(tag, what string) {
+		if r, err := cl.until(tag); err != nil {
+			e.incomplete = append(e.incomplete, fmt.Sprintf("session %d (%s): no tagged reply to %s: %v", i, st, what, err))
+		} else if strings.HasPrefix(r, "+") {
+			e.incomplete = append(e.incomplete, fmt.Sprintf("session %d (%s): continuation request instead of the reply to %s", i, st, what))
+		}
+	}
+	switch st {
+	case "selected":
+	case "idle":
+		_, _ = cl.cmd("d", "IDLE")
+	case "midliteral", "midliteral-fin", "midliteral-rst":
+		_, _ = cl.cmd("d", "APPEND "+box+" {100}")
+		send("From: a@b\r\n")
+		if st == "midliteral-fin" {
+			_ = cl.c.Close()
+		} else if st == "midliteral-rst" {
+			cl.rst()
+		}
+	case "dropped":
+		_ = cl.c.Close()
+	case "noop-loop":
+		e.loops++
+		go func(cl *tdClient) {
+			defer func() { e.loopsDone <- struct{}{} }()
+			for k := 0; ; k++ {
+				select {
+				case <-e.stopLoops:
+					return
+				default:
+				}
+				if _, err := cl.cmd(fmt.Sprintf("n%d", k), "NOOP"); err != nil {
+					return
+				}
+			}
+		}(cl)
+	case "idle-done":
+		_, _ = cl.cmd("d", "IDLE")
+		send("DONE\r\n")
+		completes("d", "IDLE ... DONE")
+		_, _ = cl.cmd("e", "NOOP")
+	case "idle-garbage", "idle-garbage-idle":
+		_, _ = cl.cmd("d", "IDLE")
+		send("g THIS-IS-NOT-DONE\r\n")
+		completes("d", "IDLE ... <malformed line>")
+		if r, err := cl.cmd("e", "NOOP"); err != nil || !strings.HasPrefix(r, "e OK") {
+			e.incomplete = append(e.incomplete, fmt.Sprintf("session %d (%s): NOOP after the failed IDLE: %v %q", i, st, err, r))
+		}
+		if st == "idle-garbage-idle" {
+			_, _ = cl.cmd("h", "IDLE")
+		}
+	case "idle-othercmd":
+		_, _ = cl.cmd("d", "IDLE")
+		send("g NOOP\r\n")
+		completes("d", "IDLE ... NOOP")
+		_, _ = cl.cmd("e", "NOOP")
+	case "idle-fin":
+		_, _ = cl.cmd("d", "IDLE")
+		_ = cl.c.Close()
+	case "idle-rst":
+		_, _ = cl.cmd("d", "IDLE")
+		cl.rst()
+	case "idle-done-rst":
+		_, _ = cl.cmd("d", "IDLE")
+		send("DONE\r\n")
+		cl.rst()
+	case "idle-enter-rst":
+		send("d IDLE\r\n")
+		cl.rst()
+	case "fetch-drain":
+		send("f " + tdFetchBig + "\r\n")
+		completes("f", tdFetchBig)
+	case "fetch-stall":
+		send("f " + tdFetchBig + "\r\n")
+		cl.stall()
+	case "fetch-stall-rst":
+		send("f " + tdFetchBig + "\r\n")
+		cl.stall()
+		cl.rst()
+	case "fetch-stall-fin":
+		send("f " + tdFetchBig + "\r\n")
+		cl.stall()
+		_ = cl.c.Close()
+	case "fetch-logout":
+		send("f " + tdFetchBig + "\r\nz LOGOUT\r\n")
+		completes("f", tdFetchBig)
+		completes("z", "LOGOUT pipelined behind "+tdFetchBig)
+		if _, err := cl.line(); err != io.EOF {
+			e.incomplete = append(e.incomplete, fmt.Sprintf("session %d (%s): connection not closed after LOGOUT: %v", i, st, err))
+		}
+	case "fetch-logout-stall-rst":
+		send("f " + tdFetchBig + "\r\nz LOGOUT\r\n")
+		cl.stall()
+		cl.rst()
+	default:
+		return fmt.Errorf("unknown session state %q", st)
+	}
+	return nil
+}
+
 func runTeardown(sc tdScenario, watchdog time.Duration) tdOutcome {
 	var out tdOutcome
 	runtime.GC()
 	out.baseline = runtime.NumGoroutine()
+	baseFrames := tdFrameCounts()
 	dir, err := os.MkdirTemp("", "c19td")
 	if err != nil {
 		out.setupErr = err.Error()
@@ -173,66 +449,40 @@ func runTeardown(sc tdScenario, watchdog time.Duration) tdOutcome {
 		out.setupErr = err.Error()
 		return out
 	}
-	var clients []*tdClient
-	if sc.kind == "snaprace" {
+	switch sc.kind {
+	case "snaprace":
 		rounds := 5
 		fmt.Sscan(sc.sessions[0], &rounds)
 		if err := tdSnapRace(l.Addr().String(), rounds, conn); err != nil {
 			out.setupErr = "snaprace: " + err.Error()
 		}
 		sc.sessions = nil
+	case "updrace":
+		rounds := 20
+		fmt.Sscan(sc.sessions[0], &rounds)
+		if err := tdUpdRace(l.Addr().String(), rounds, conn); err != nil {
+			out.setupErr = "updrace: " + err.Error()
+		}
+		sc.sessions = nil
 	}
-	stopLoops := make(chan struct{})
-	loopsDone := make(chan struct{}, len(sc.sessions))
-	loops := 0
+	for _, st := range sc.sessions {
+		if strings.HasPrefix(st, "fetch-") {
+			if err := tdMakeBig(conn); err != nil {
+				out.setupErr = "big: " + err.Error()
+			}
+			break
+		}
+	}
+	env := &tdEnv{addr: l.Addr().String(), stopLoops: make(chan struct{}), loopsDone: make(chan struct{}, len(sc.sessions))}
 	for i, st := range sc.sessions {
-		cl, err := tdDial(l.Addr().String())
-		if err != nil {
-			out.setupErr = "dial: " + err.Error()
+		if out.setupErr != "" {
 			break
 		}
-		clients = append(clients, cl)
-		if st == "preauth" {
-			continue
-		}
-		if r, err := cl.cmd("a", "LOGIN user pass"); err != nil || !strings.HasPrefix(r, "a OK") {
-			out.setupErr = fmt.Sprintf("login: %v %q", err, r)
-			break
-		}
-		if st == "auth" {
-			continue
-		}
-		box := fmt.Sprintf("box%d", i)
-		_, _ = cl.cmd("b", "CREATE "+box)
-		if r, err := cl.cmd("c", "SELECT "+box); err != nil || !strings.HasPrefix(r, "c OK") {
-			out.setupErr = fmt.Sprintf("select: %v %q", err, r)
-			break
-		}
-		switch st {
-		case "idle":
-			_, _ = cl.cmd("d", "IDLE")
-		case "midliteral":
-			_, _ = cl.cmd("d", "APPEND "+box+" {100}")
-			_, _ = cl.c.Write([]byte("From: a@b\r\n"))
-		case "dropped":
-			_ = cl.c.Close()
-		case "noop-loop":
-			loops++
-			go func(cl *tdClient) {
-				defer func() { loopsDone <- struct{}{} }()
-				for k := 0; ; k++ {
-					select {
-					case <-stopLoops:
-						return
-					default:
-					}
-					if _, err := cl.cmd(fmt.Sprintf("n%d", k), "NOOP"); err != nil {
-						return
-					}
-				}
-			}(cl)
+		if err := env.enter(i, st); err != nil {
+			out.setupErr = err.Error()
 		}
 	}
+	out.incomplete = strings.Join(env.incomplete, "; ")
 	if sc.kind == "ctxcancel" || sc.kind == "errch" {
 		cancel()
 		time.Sleep(300 * time.Millisecond)
@@ -255,23 +505,75 @@ func runTeardown(sc tdScenario, watchdog time.Duration) tdOutcome {
 		}
 	case <-time.After(watchdog):
 		out.returned = false
-		out.leftover = tdTopFrames()
+		out.leftover = tdTopFrames(baseFrames)
 	}
-	close(stopLoops)
+	close(env.stopLoops)
 	_ = l.Close()
-	for _, cl := range clients {
+	for _, cl := range env.clients {
 		_ = cl.c.Close()
 	}
-	for ; loops > 0; loops-- {
-		<-loopsDone
+	for ; env.loops > 0; env.loops-- {
+		<-env.loopsDone
 	}
 	if out.returned {
 		if !waitGoroutines(out.baseline, 5*time.Second) {
-			out.leftover = tdTopFrames()
+			out.leftover = tdTopFrames(baseFrames)
 		}
 	}
 	out.goroutines = runtime.NumGoroutine()
 	return out
+}
+
+// tdUpdRace: connector updates are applied (MessageCreated + Flush from a feeder goroutine) while sessions
+// of the same user log in, NOOP, and leave (LOGOUT / plain disconnect / disconnect with a selected mailbox).
+func tdUpdRace(addr string, rounds int, conn *connector.Dummy) error {
+	if err := tdMailbox(conn, "c19upd", "upd"); err != nil {
+		return err
+	}
+	conn.Flush()
+	msg := tdMessage(200)
+	stop := make(chan struct{})
+	done := make(chan error, 1)
+	go func() {
+		for k := 0; ; k++ {
+			select {
+			case <-stop:
+				done <- nil
+				return
+			default:
+			}
+			if err := conn.MessageCreated(imap.Message{ID: imap.MessageID(fmt.Sprintf("c19upd-%d", k)), Flags: imap.NewFlagSet(), Date: time.Unix(1136214245, 0).UTC()}, msg, []imap.MailboxID{"c19upd"}); err != nil {
+				done <- err
+				return
+			}
+			conn.Flush()
+		}
+	}()
+	var first error
+	for r := 0; r < rounds && first == nil; r++ {
+		cl, err := tdDial(addr)
+		if err != nil {
+			first = err
+			break
+		}
+		if rep, err := cl.cmd("a", "LOGIN user pass"); err != nil || !strings.HasPrefix(rep, "a OK") {
+			first = fmt.Errorf("login: %v %q", err, rep)
+		}
+		switch r % 3 {
+		case 0:
+			_, _ = cl.cmd("b", "NOOP")
+			_, _ = cl.cmd("z", "LOGOUT")
+		case 1:
+			_, _ = cl.cmd("b", "SELECT upd")
+			_, _ = cl.cmd("c", "NOOP")
+		}
+		_ = cl.c.Close()
+	}
+	close(stop)
+	if err := <-done; err != nil && first == nil {
+		first = err
+	}
+	return first
 }
 
 // tdSnapRace: A and B select the same mailbox; the connector deletes messages (they get marked as
@@ -341,15 +643,77 @@ func tdSnapRace(addr string, rounds int, conn *connector.Dummy) error {
 	return nil
 }
 
+// tdDirected: run on every seed, before the random scenarios - every way a session can end, in every state.
+var tdDirected = []tdScenario{
+	{kind: "teardown", how: "removeuser+close", sessions: []string{"fetch-stall-rst"}},
+	{kind: "teardown", how: "close", sessions: []string{"fetch-stall-fin", "fetch-logout-stall-rst", "selected"}},
+	{kind: "teardown", how: "removeuser+close", sessions: []string{"fetch-drain", "fetch-logout"}},
+	{kind: "teardown", how: "close", sessions: []string{"fetch-stall", "idle"}},
+	{kind: "teardown", how: "removeuser+close", sessions: []string{"idle-garbage", "idle-done", "idle-othercmd", "idle-garbage-idle"}},
+	{kind: "teardown", how: "close", sessions: []string{"idle-garbage"}},
+	{kind: "teardown", how: "close", sessions: []string{"idle-fin", "idle-rst", "idle-done-rst", "idle-enter-rst"}},
+	{kind: "teardown", how: "removeuser+close", sessions: []string{"idle-done-rst", "idle-enter-rst", "idle-rst", "idle-fin"}},
+	{kind: "teardown", how: "removeuser+close", sessions: []string{"midliteral-fin", "midliteral-rst", "midliteral"}},
+	{kind: "ctxcancel", how: "close", sessions: []string{"idle", "midliteral", "selected", "preauth", "noop-loop"}},
+	{kind: "ctxcancel", how: "removeuser+close", sessions: []string{"idle", "idle-done"}},
+	{kind: "ctxcancel", how: "close", sessions: []string{"fetch-stall", "idle-garbage"}},
+}
+
+func tdRandomSessions(r *Rng) []string {
+	var xs []string
+	bigs := 0
+	for k := r.Range(2, 6); k > 0; k-- {
+		switch d := r.Intn(10); {
+		case d < 5:
+			xs = append(xs, Pick(r, tdStates))
+		case d < 9 || bigs >= 2:
+			xs = append(xs, Pick(r, tdEndStates))
+		default:
+			bigs++
+			xs = append(xs, Pick(r, tdBigStates))
+		}
+	}
+	return xs
+}
+
+// tdStalledWriter: RemoveUser (not only Close) with a client that is connected and not reading.
+func tdStalledWriter(sc tdScenario) bool {
+	if sc.kind != "teardown" || sc.how != "removeuser+close" {
+		return false
+	}
+	for _, st := range sc.sessions {
+		if st == "fetch-stall" {
+			return true
+		}
+	}
+	return false
+}
+
+func tdParseScenario(line string) (tdScenario, bool) {
+	w := strings.Fields(line)
+	if len(w) != 3 || !strings.HasPrefix(w[1], "how=") || !strings.HasPrefix(w[2], "sessions=") {
+		return tdScenario{}, false
+	}
+	switch w[0] {
+	case "teardown", "ctxcancel", "errch", "snaprace", "updrace":
+	default:
+		return tdScenario{}, false
+	}
+	return tdScenario{kind: w[0], how: strings.TrimPrefix(w[1], "how="), sessions: strings.Split(strings.TrimPrefix(w[2], "sessions="), ",")}, true
+}
+
 func runOracleTeardown(args []string) int {
 	fs := flag.NewFlagSet("c19teardown", flag.ExitOnError)
 	seed := fs.Uint64("seed", 1, "seed")
 	outPath := fs.String("out", "", "result json")
 	replayDir := fs.String("replaydir", "replay", "where replay files go")
 	replay := fs.String("replay", "", "replay file")
-	n := fs.Int("n", 6, "number of teardown scenarios")
+	n := fs.Int("n", 6, "number of random teardown scenarios")
 	snaprace := fs.Int("snaprace", 0, "rounds of the snapshot-race scenario (for the -race build)")
+	updrace := fs.Int("updrace", 0, "rounds of the updates-vs-login/logout scenario (for the -race build)")
 	noHang := fs.Bool("nohang", false, "skip the ctxcancel / errch scenarios")
+	noDirected := fs.Bool("nodirected", false, "skip the directed scenarios")
+	stalled := fs.Bool("stalled", false, "also RemoveUser while a client that does not read is still connected (label `c19teardown stalled-writer`)")
 	_ = fs.Parse(args)
 	logrus.SetLevel(logrus.PanicLevel)
 	res := &oracleResult{Stats: map[string]int{}, Samples: []map[string]any{}, Violations: []oracleViolation{}}
@@ -361,32 +725,59 @@ func runOracleTeardown(args []string) int {
 			return 2
 		}
 		for _, line := range strings.Split(string(data), "\n") {
-			w := strings.Fields(line)
-			if len(w) == 3 && (w[0] == "teardown" || w[0] == "ctxcancel" || w[0] == "errch" || w[0] == "snaprace") {
-				scs = append(scs, tdScenario{kind: w[0], how: strings.TrimPrefix(w[1], "how="), sessions: strings.Split(strings.TrimPrefix(w[2], "sessions="), ",")})
+			if sc, ok := tdParseScenario(line); ok {
+				scs = append(scs, sc)
 			}
 		}
 	} else {
 		r := NewRng(*seed)
+		if !*noDirected {
+			for _, sc := range tdDirected {
+				if *noHang && sc.kind == "ctxcancel" {
+					continue
+				}
+				scs = append(scs, sc)
+			}
+		}
 		for i := 0; i < *n; i++ {
 			sc := tdScenario{kind: "teardown", how: Pick(r, []string{"close", "removeuser+close"})}
-			for k := r.Range(2, 6); k > 0; k-- {
-				sc.sessions = append(sc.sessions, Pick(r, tdStates))
+			sc.sessions = tdRandomSessions(r)
+			if !*noHang && r.Chance(1, 4) {
+				sc.kind = "ctxcancel"
+			}
+			if sc.kind == "teardown" && tdStalledWriter(sc) {
+				// RemoveUser waits for a session that is blocked in write(2) for as long as its client neither reads
+				// nor disconnects (nothing closes the connection before Server.Close): only with -stalled
+				sc.how = "close"
 			}
 			scs = append(scs, sc)
 		}
 		if *snaprace > 0 {
 			scs = append(scs, tdScenario{kind: "snaprace", how: "close", sessions: []string{fmt.Sprint(*snaprace)}})
 		}
+		if *updrace > 0 {
+			scs = append(scs, tdScenario{kind: "updrace", how: "removeuser+close", sessions: []string{fmt.Sprint(*updrace)}})
+		}
+		if *stalled {
+			scs = append(scs, tdScenario{kind: "teardown", how: "removeuser+close", sessions: []string{"fetch-stall"}})
+		}
 		if !*noHang {
 			scs = append(scs, tdScenario{kind: "errch", how: "close", sessions: []string{"preauth", "preauth", "preauth"}})
-			// last: it wedges the server it runs on
+			// the regression scenario of 630a898 / 0873710
 			scs = append(scs, tdScenario{kind: "ctxcancel", how: "close", sessions: []string{"selected"}})
 		}
 	}
-	for _, sc := range scs {
+	hangs, leaks := 0, 0
+	for idx, sc := range scs {
+		if hangs >= 2 || leaks >= 3 {
+			// every hang costs a watchdog period and leaves a wedged server behind in this process, every leak
+			// 5 s of waiting for the goroutines: the class of defect is established by then
+			res.Stats["not-run-after-2-hangs-or-3-leaks"]++
+			continue
+		}
+		regression := sc.kind == "ctxcancel" && len(sc.sessions) == 1 && sc.sessions[0] == "selected"
 		wd := 20 * time.Second
-		if sc.kind == "ctxcancel" {
+		if regression || tdStalledWriter(sc) {
 			wd = 5 * time.Second
 		}
 		o := runTeardown(sc, wd)
@@ -397,21 +788,36 @@ func runOracleTeardown(args []string) int {
 			continue
 		}
 		res.Stats[fmt.Sprintf("%s.returned=%v", sc.kind, o.returned)]++
+		for _, st := range sc.sessions {
+			if tdKnownState(st) {
+				res.Stats["session."+st]++
+			}
+		}
 		if len(res.Samples) < 3 {
 			res.Samples = append(res.Samples, map[string]any{"oracle": "c19teardown", "scenario": sc.String(), "returned": o.returned, "goroutines_after": o.goroutines, "baseline": o.baseline, "left": o.leftover})
 		}
 		replayText := func(what string) string {
-			return fmt.Sprintf("oracle c19teardown\n# %s\n# goroutines blocked / left (count x first gluon frame): %s\n# replay: ./check C19 --replay <this file>\n%s\n", what, o.leftover, sc.String())
+			return fmt.Sprintf("oracle c19teardown\n# %s\n# goroutines blocked / left (count x first gluon frame, baseline subtracted): %s\n# replay: ./check C19 --replay <this file>\n%s\n", what, o.leftover, sc.String())
+		}
+		file := func(what string) string { return fmt.Sprintf("C19-c19teardown-%s-%d-%d.txt", what, *seed, idx) }
+		if o.incomplete != "" {
+			what := "a command did not complete although its client kept reading (no teardown running yet): " + o.incomplete
+			res.Violations = append(res.Violations, oracleViolation{Desc: "c19teardown command-incomplete: " + what, Replay: writeReplay(*replayDir, file("incomplete"), replayText(what))})
 		}
 		switch {
-		case !o.returned && sc.kind == "ctxcancel":
+		case !o.returned && regression:
 			res.DistinctNontrivial++
 			what := "REGRESSION of 630a898: Server.Close does not return after the context passed to Server.Serve was cancelled while a logged-in session existed (removeState must reach statesWG.Done() even if its DB read fails; theorem teardown_ctxcancel_now_completes)"
 			res.Violations = append(res.Violations, oracleViolation{Desc: "c19teardown ctxcancel-hang: " + what, Replay: writeReplay(*replayDir, "C19-c19teardown-ctxcancel.txt", replayText(what))})
+		case !o.returned && tdStalledWriter(sc) && strings.Contains(o.leftover, "(*Session).WriteResponse"):
+			res.Stats["stalled-writer"]++
+			what := "RemoveUser did not return within 5 s: a session of the user is blocked in Session.WriteResponse (conn.Write without deadline; its client is connected but does not read the answer of a large FETCH) and user.close waits in statesWG.Wait() - under Backend.usersLock - for as long as that client likes (hypothesis hObservesDone of teardown_completes is not met by a session blocked in write(2)); Server.Close alone is not affected, it closes the connections first"
+			res.Violations = append(res.Violations, oracleViolation{Desc: "c19teardown stalled-writer: " + what + "; blocked: " + o.leftover, Replay: writeReplay(*replayDir, "C19-c19teardown-stalled-writer.txt", replayText(what))})
 		case !o.returned:
-			what := "RemoveUser/Server.Close did not return within 20 s although every session observes Done and no context was cancelled (assumptions of teardown_completes are met)"
-			res.Violations = append(res.Violations, oracleViolation{Desc: "c19teardown hang: " + what, Replay: writeReplay(*replayDir, fmt.Sprintf("C19-c19teardown-hang-%d.txt", *seed), replayText(what))})
-		case o.leftover != "" && sc.kind == "ctxcancel":
+			hangs++
+			what := "RemoveUser/Server.Close did not return within 20 s (sessions were brought into the listed states first; every session loop can observe Done / its closed connection, the assumption of teardown_completes)"
+			res.Violations = append(res.Violations, oracleViolation{Desc: "c19teardown hang: " + what + "; blocked: " + o.leftover, Replay: writeReplay(*replayDir, file("hang"), replayText(what))})
+		case o.leftover != "" && regression:
 			res.DistinctNontrivial++
 			res.Stats["ctxcancel.state-not-closed"]++
 			what := "REGRESSION of 0873710: Server.Close returned, but a goroutine is left after the Serve context was cancelled with a logged-in session (removeState must close the state even if its DB write fails, otherwise the state's update-queue goroutine sleeps in QueuedChannel.pop for ever; theorems teardown_safe, teardown_writefail_now_clean)"
@@ -421,9 +827,10 @@ func runOracleTeardown(args []string) int {
 			res.Stats["errch.consumer-goroutine-left"]++
 			what := "REGRESSION of 214c4ac: Server.Close returned, but a goroutine is left: three sessions ended with `context canceled`, nobody reads Server.GetErrorCh (Server.Close must use serveErrCh.CloseAndDiscardQueued(); theorem server_errch_close_classified)"
 			res.Violations = append(res.Violations, oracleViolation{Desc: "c19teardown #13a-errch: " + what, Replay: writeReplay(*replayDir, "C19-c19teardown-13a-errch.txt", replayText(what))})
-		case o.leftover != "" && sc.kind == "teardown":
+		case o.leftover != "":
+			leaks++
 			what := fmt.Sprintf("goroutines left behind after Server.Close returned: baseline %d, now %d", o.baseline, o.goroutines)
-			res.Violations = append(res.Violations, oracleViolation{Desc: "c19teardown leak: " + what, Replay: writeReplay(*replayDir, fmt.Sprintf("C19-c19teardown-leak-%d.txt", *seed), replayText(what))})
+			res.Violations = append(res.Violations, oracleViolation{Desc: "c19teardown leak: " + what + ": " + o.leftover, Replay: writeReplay(*replayDir, file("leak"), replayText(what))})
 		default:
 			res.DistinctNontrivial++
 		}
